@@ -100,10 +100,10 @@ def run_one(fo, fn, vec, p):
         return {"twin_error": repr(ex)}
     out = {"want": want}
     try:
-        rx, ry, ctx = fo(X, Y, Bv, N)
-        out["got"] = (H.plain(rx), H.plain(ry))
+        rx, ry, ctx, rl = fo(X, Y, Bv, N)
+        out["got"] = (H.plain(rx), H.plain(ry), tuple(H.plain(rl)))
         out["stack"] = len(ctx.stack)
-        out["mism"] = H.value_wire_mismatches([rx, ry])
+        out["mism"] = H.value_wire_mismatches([rx, ry, rl])
     except Exception as ex:  # noqa: BLE001
         out["exc"] = "%s: %s" % (type(ex).__name__, str(ex)[:100])
         out["exc_type"] = type(ex).__name__
@@ -160,8 +160,9 @@ def _task(t):
                            {"exc": r["exc_type"]})
                     continue
                 outcomes.add(r["got"])
+                r["want"] = (r["want"][0], r["want"][1], tuple(r["want"][2]))
                 if tuple(r["got"]) != tuple(r["want"]):
-                    report("wrong-result", vec, "oblivious program ends with (x,y)=%s, native twin with %s" % (r["got"], r["want"]))
+                    report("wrong-result", vec, "oblivious program ends with (x,y,l)=%s, native twin with %s" % (r["got"], r["want"]))
                 if r["unsat"]:
                     report("unsat", vec, "constraints %s not satisfied by the recorded witness" % r["unsat"][:3])
                 if r["mism"]:
@@ -247,6 +248,7 @@ def replay(case):
     stmts = _fix(stmts)
     fo, fn, so, sn = compile_pair(stmts, case["explicit"])
     r = run_one(fo, fn, tuple(case["vec"]), case["p"])
+    r["want"] = (r["want"][0], r["want"][1], tuple(r["want"][2]))
     bad = ("exc" in r) or tuple(r.get("got", ())) != tuple(r["want"]) or r["unsat"]
     r.pop("trace", None)
     return {"oblivious": so, "native": sn, "inputs": case["vec"], "result": r, "violations": [r] if bad else []}
